@@ -98,6 +98,7 @@ def r10_1(ctx):
                            "every normal path of every method (isometries of the points excepted, derived by R09.1)",
                   floor=20)
     caches = cache.find_lazy_caches(ctx)
+    caches = caches + cache.find_eager_snapshots(ctx, caches)
     if not caches:
         raise AnalysisError("no lazily computed field found (expected at least JordanCurve.__lenght)")
     O = ownership(ctx)
